@@ -176,7 +176,7 @@ namespace Ft.C15
 def CntInv (p r ty : String) (F0 : List Row) (h : Nat) (reg : Bool) (s : MState) : Prop :=
   ∃ c st lo, dget s.traces (r, ty) = some ⟨some c, none, st⟩ ∧ s.lineOrder = some lo ∧ dhas lo r = reg ∧
     (if reg = true then st = true ∧ (fileOf s p r ty).length + c.length = 1 + h
-     else c = [] ∧ h = 0 ∧ fileOf s p r ty = F0)
+     else c = [] ∧ h = 0 ∧ st = false ∧ fileOf s p r ty = F0)
 
 theorem inv_same {p r ty : String} {F0 : List Row} {h : Nat} {reg : Bool} {s s' : MState}
     (h1 : s'.collecting = s.collecting) (h2 : s'.pfx = s.pfx) (h3 : s'.allRankMatches = s.allRankMatches)
@@ -323,6 +323,7 @@ theorem pushRow_inv {p r ty : String} {F0 : List Row} {h : Nat} {reg : Bool} {ra
       cases htr
       simp only [Option.some.injEq] at hfile
       subst hfile
+      subst hst
       split at hrec
       · obtain ⟨tr2, q, f2, g1, g2, g3, rfl⟩ := writeTrace_some hrec
         simp only [dget_dset_self, Option.some.injEq] at g1
@@ -336,14 +337,14 @@ theorem pushRow_inv {p r ty : String} {F0 : List Row} {h : Nat} {reg : Bool} {ra
         subst hq
         refine ⟨writeTrace_sinv hs2 hrec, [], true, lo0, by simp [dget_dset_self], e2, e3, ?_⟩
         simp only [if_true, fileOf, dget_dset_self, Option.getD_some, List.length_append, List.length_nil,
-          List.length_cons, true_and]
+          List.length_cons, true_and, fileBase]
         simp only [fileOf] at hlen
         omega
       · cases hrec
-        refine ⟨hs2, c ++ [data], st, lo0, by simp [dget_dset_self], e2, e3, ?_⟩
+        refine ⟨hs2, c ++ [data], true, lo0, by simp [dget_dset_self], e2, e3, ?_⟩
         simp only [if_true, fileOf, List.length_append, List.length_cons, List.length_nil]
         simp only [fileOf] at hlen
-        exact ⟨hst, by omega⟩
+        exact ⟨trivial, by omega⟩
     · have hz : (if rank == r && t == ty then 1 else 0) = 0 := by
         by_cases h1 : rank = r
         · by_cases h2 : t = ty
@@ -567,7 +568,7 @@ theorem endOne_inv {p r ty : String} {s s' : MState} {e : TKey × TraceSt} (hs :
     (he : e.2.mem = none ∧ e.2.file.isSome = true) (h : endOne s e = some s') :
     SInv p s' ∧ (e.1 ≠ (r, ty) → Untouched p r ty s s') ∧
     (e.1 = (r, ty) → ∀ c st, dget s.traces (r, ty) = some ⟨some c, none, st⟩ →
-      dget s'.fs (p, r, ty) = some ((dget s.fs (p, r, ty)).getD [] ++ c) ∧
+      dget s'.fs (p, r, ty) = some (fileBase s (p, r, ty) st ++ c) ∧
       ∃ st', dget s'.traces (r, ty) = some ⟨some [], none, st'⟩) := by
   unfold endOne at h
   rw [if_pos he.2, he.1] at h
@@ -602,7 +603,7 @@ theorem endFold_inv {p r ty : String} (L : List (TKey × TraceSt)) :
       L.foldlM endOne s = some s' →
       SInv p s' ∧ ((r, ty) ∉ L.map (·.1) → Untouched p r ty s s') ∧
       ((r, ty) ∈ L.map (·.1) → ∀ c st, dget s.traces (r, ty) = some ⟨some c, none, st⟩ →
-        dget s'.fs (p, r, ty) = some ((dget s.fs (p, r, ty)).getD [] ++ c)) := by
+        dget s'.fs (p, r, ty) = some (fileBase s (p, r, ty) st ++ c)) := by
   induction L with
   | nil =>
     intro s s' _ _ hs h
@@ -634,7 +635,8 @@ theorem endFold_inv {p r ty : String} (L : List (TKey × TraceSt)) :
             rcases hm with e' | e'
             · exact absurd e'.symm hk
             · exact e'
-          rw [hD hm' c st (hu.1.trans htr), hu.2]
+          rw [hD hm' c st (hu.1.trans htr)]
+          simp only [fileBase, hu.2]
 
 /-- after `endCollect` the file of a registered, declared trace holds the header and the rows -/
 theorem mEnd_file {p r ty : String} {F0 : List Row} {h : Nat} {s s' : MState} (hs : SInv p s) (hc : CntInv p r ty F0 h true s)
@@ -646,14 +648,16 @@ theorem mEnd_file {p r ty : String} {F0 : List Row} {h : Nat} {s s' : MState} (h
   have hm : (r, ty) ∈ s.traces.map (·.1) := by
     rw [← dhas_iff_mem_keys, dhas_eq_isSome, e1]; rfl
   have := hD hm c st e1
-  simp only [fileOf] at e4 ⊢
+  obtain ⟨hst, hlen⟩ := e4
+  subst hst
+  simp only [fileOf] at hlen ⊢
   rw [this]
-  simp only [Option.getD_some, List.length_append]
-  exact e4.2
+  simp only [Option.getD_some, List.length_append, fileBase, if_true]
+  exact hlen
 
-/-- … and the file of a declared trace whose rank was never registered is what it was before the session -/
-theorem mEnd_file_stale {p r ty : String} {F0 : List Row} {h : Nat} {s s' : MState} (hs : SInv p s) (hc : CntInv p r ty F0 h false s)
-    (hend : mEnd s = some s') : fileOf s' p r ty = F0 := by
+/-- … and the file of a declared trace whose rank was never registered is a new, empty file -/
+theorem mEnd_file_unstarted {p r ty : String} {F0 : List Row} {h : Nat} {s s' : MState} (hs : SInv p s) (hc : CntInv p r ty F0 h false s)
+    (hend : mEnd s = some s') : fileOf s' p r ty = [] ∧ h = 0 := by
   obtain ⟨s1, hfold, _, rfl⟩ := mEnd_some hend
   obtain ⟨c, st, lo, e1, e2, e3, e4⟩ := hc
   simp only [Bool.false_eq_true, if_false] at e4
@@ -661,10 +665,11 @@ theorem mEnd_file_stale {p r ty : String} {F0 : List Row} {h : Nat} {s s' : MSta
   have hm : (r, ty) ∈ s.traces.map (·.1) := by
     rw [← dhas_iff_mem_keys, dhas_eq_isSome, e1]; rfl
   have := hD hm c st e1
-  have e5 := e4.2.2
-  simp only [fileOf] at e5 ⊢
-  rw [this, e4.1, ← e5]
-  simp
+  obtain ⟨hc0, hh0, hst, _⟩ := e4
+  subst hc0; subst hst
+  simp only [fileOf]
+  rw [this]
+  exact ⟨by simp [fileBase], hh0⟩
 
 end Ft.C15
 
